@@ -131,3 +131,31 @@ pub fn segment_data_64le() {
 pub fn segment_data_32be() {
     segment_data_iff(&FILE32BE);
 }
+
+/// Note name / descriptor are exactly the designated bytes for ANY alignment (first record; sequences are C14).
+#[kani::proof]
+#[kani::unwind(6)]
+pub fn first_note_ranges_any_align() {
+    let (buf, len) = any_buf::<32>();
+    let data = &buf[..len];
+    let align: usize = kani::any();
+    let le: bool = kani::any();
+    let e = if le { AnyEndian::Little } else { AnyEndian::Big };
+    let base = data.as_ptr() as usize;
+    let mut it = elf::note::NoteIterator::new(e, Class::ELF32, align, data);
+    let exp = crate::c14::ref_note(data, 0, align, le);
+    match (it.next(), exp) {
+        (Some(elf::note::Note::Unknown(a)), Some(x)) => {
+            assert!(a.name.as_ptr() as usize == base + x.ns && a.name.len() == x.ne - x.ns);
+            assert!(a.desc.as_ptr() as usize == base + x.ds && a.desc.len() == x.de - x.ds);
+            kani::cover!(align == 12 && x.ds == 24, "alignment 12: descriptor at 24");
+        }
+        (Some(elf::note::Note::GnuBuildId(b)), Some(x)) => {
+            assert!(b.0.as_ptr() as usize == base + x.ds && b.0.len() == x.de - x.ds);
+        }
+        (Some(_), None) => {
+            assert!(false);
+        }
+        _ => {}
+    }
+}
